@@ -40,23 +40,22 @@ Definition sched_f22_io : list choice :=
   [CIo (EFlush FErr)] ++             (* handle_write: _flush_exception -> will_close := True *)
   [CWk 0 (WLock false)] ++ wk_n 0 6 ++ wk_n 0 4.
 
-Definition tr_f22 := trace step (init 0) sched_f22.
-Definition tr_f22_io := trace step (init 0) sched_f22_io.
-
-Lemma f22_trace : tr_f22 =
+Lemma f22_trace : trace step (init 0) sched_f22 =
   [LQueued 0; LAddTask ByIO; LQueued 1; LServiceStart 0; LServiceReq 0 0; LAppCall 0 0;
    LDecide DFlushErrW; LAddTask (ByW 0); LServiceEnd 0; LServiceStart 1; LServiceReq 1 1; LAppCall 1 1].
 Proof. vm_compute. reflexivity. Qed.
 
-Lemma f22_io_trace : tr_f22_io =
+Lemma f22_io_trace : trace step (init 0) sched_f22_io =
   [LQueued 0; LAddTask ByIO; LQueued 1; LServiceStart 0; LServiceReq 0 0; LAppCall 0 0;
    LDecide DFlushErrIO; LAddTask (ByW 0); LServiceEnd 0; LServiceStart 1; LServiceReq 1 1; LAppCall 1 1].
 Proof. vm_compute. reflexivity. Qed.
 
-Lemma f22_monitor : monitor all_kinds tr_f22 = false /\ monitor covered tr_f22 = true.
+Lemma f22_monitor : monitor all_kinds (trace step (init 0) sched_f22) = false /\
+                    monitor covered (trace step (init 0) sched_f22) = true.
 Proof. rewrite f22_trace. split; vm_compute; reflexivity. Qed.
 
-Lemma f22_io_monitor : monitor all_kinds tr_f22_io = false /\ monitor covered tr_f22_io = true.
+Lemma f22_io_monitor : monitor all_kinds (trace step (init 0) sched_f22_io) = false /\
+                       monitor covered (trace step (init 0) sched_f22_io) = true.
 Proof. rewrite f22_io_trace. split; vm_compute; reflexivity. Qed.
 
 (* The full statement: every kind of decision.  It is false (C11_full_refuted); the theorem that
@@ -73,25 +72,32 @@ Definition C11_full : Prop := C11_statement all_kinds.
 
 Lemma C11_full_refuted : ~ C11_full.
 Proof.
-  intro F. apply (F 0 sched_f22 6 9 DFlushErrW 1) with (r := 1); fold tr_f22; rewrite f22_trace;
-  try reflexivity; [auto with arith | simpl; tauto].
+  intro F. unfold C11_full, C11_statement in F.
+  specialize (F 0 sched_f22 6 9 DFlushErrW 1). cbv zeta in F.
+  rewrite f22_trace in F.
+  apply (F eq_refl eq_refl eq_refl) with (r := 1).
+  - repeat constructor.
+  - cbv [In]. tauto.
 Qed.
 
 (* the same, naming the decision of the witness: worker-side and I/O-side flush error *)
-Lemma C11_refuted_worker_flush : exists L sched i j k r,
-  let tr := trace step (init L) sched in
-  nth_error tr i = Some (LDecide DFlushErrW) /\ nth_error tr j = Some (LServiceStart k) /\ i < j /\
-  In (LAppCall k r) tr.
+Definition refuted_by (kd : dkind) : Prop := exists L sched i j k r,
+  nth_error (trace step (init L) sched) i = Some (LDecide kd) /\
+  nth_error (trace step (init L) sched) j = Some (LServiceStart k) /\ i < j /\
+  In (LAppCall k r) (trace step (init L) sched).
+
+Lemma C11_refuted_worker_flush : refuted_by DFlushErrW.
 Proof.
-  exists 0, sched_f22, 6, 9, 1, 1. fold tr_f22. rewrite f22_trace. simpl. repeat split; auto with arith. tauto.
+  exists 0, sched_f22, 6, 9, 1, 1.
+  rewrite f22_trace.
+  split; [reflexivity|]. split; [reflexivity|]. split; [repeat constructor|]. cbv [In]. tauto.
 Qed.
 
-Lemma C11_refuted_io_flush : exists L sched i j k r,
-  let tr := trace step (init L) sched in
-  nth_error tr i = Some (LDecide DFlushErrIO) /\ nth_error tr j = Some (LServiceStart k) /\ i < j /\
-  In (LAppCall k r) tr.
+Lemma C11_refuted_io_flush : refuted_by DFlushErrIO.
 Proof.
-  exists 0, sched_f22_io, 6, 9, 1, 1. fold tr_f22_io. rewrite f22_io_trace. simpl. repeat split; auto with arith. tauto.
+  exists 0, sched_f22_io, 6, 9, 1, 1.
+  rewrite f22_io_trace.
+  split; [reflexivity|]. split; [reflexivity|]. split; [repeat constructor|]. cbv [In]. tauto.
 Qed.
 
 (* The hypotheses of the partial theorem are satisfiable: a covered decision (handle_close after a
